@@ -232,6 +232,10 @@ pub struct FilCase {
     /// address family of the three source IPs: 0 IPv4, 1 native IPv6, 2 IPv4-mapped IPv6, 3 one of each
     #[serde(default)]
     pub ip_family: u8,
+    /// the rate limiter is configured without a per-node quota (only total and per-IP): node ids are
+    /// then not limited at all
+    #[serde(default)]
+    pub no_node_quota: bool,
 }
 
 thread_local! {
@@ -271,12 +275,17 @@ pub fn run_filter(c: &FilCase) -> CaseReport {
     // reset the process-global lists (cases run sequentially inside one worker process)
     *PERMIT_BAN_LIST.write() = Default::default();
     let hour = Duration::from_secs(3600);
-    let rl = RateLimiterBuilder::new()
-        .total_n_every(c.total_burst.max(1) as u64, hour)
-        .ip_n_every(c.ip_burst.max(1) as u64, hour)
-        .node_n_every(c.node_burst.max(1) as u64, hour)
-        .build()
-        .expect("quota builds");
+    let rl = if c.no_node_quota {
+        rep.class("filter-without-a-node-quota");
+        RateLimiterBuilder::new().total_n_every(c.total_burst.max(1) as u64, hour).ip_n_every(c.ip_burst.max(1) as u64, hour).build().expect("quota builds")
+    } else {
+        RateLimiterBuilder::new()
+            .total_n_every(c.total_burst.max(1) as u64, hour)
+            .ip_n_every(c.ip_burst.max(1) as u64, hour)
+            .node_n_every(c.node_burst.max(1) as u64, hour)
+            .build()
+            .expect("quota builds")
+    };
     let cfg = FilterConfig {
         enabled: true,
         rate_limiter: Some(rl),
@@ -286,7 +295,7 @@ pub fn run_filter(c: &FilCase) -> CaseReport {
     let ban_duration = if c.ban_1h { Some(hour) } else { None };
     let mut f = VFilter::new(cfg, ban_duration);
     let ipb = c.ip_burst.max(1) as u64;
-    let nb = c.node_burst.max(1) as u64;
+    let nb = if c.no_node_quota { u64::MAX / 4 } else { c.node_burst.max(1) as u64 };
     let tb = c.total_burst.max(1) as u64;
 
     // ledger (order independent)
@@ -855,8 +864,8 @@ fn fil_strategy(max: usize) -> BoxedStrategy<FilCase> {
         1 => (0u8..4, any::<bool>()).prop_map(|(node, on)| FEv::BanNode { node, on }),
         1 => Just(FEv::Prune),
     ];
-    (1u8..=6, 1u8..=6, 1u8..=24, any::<bool>(), prop_oneof![4 => Just(false), 1 => Just(true)], proptest::collection::vec(ev, 1..max), prop_oneof![3 => Just(0u8), 1 => Just(1u8), 2 => Just(2u8), 2 => Just(3u8)])
-        .prop_map(|(ip_burst, node_burst, total_burst, ban_1h, per_ip_features, events, ip_family)| FilCase {
+    (1u8..=6, 1u8..=6, 1u8..=24, any::<bool>(), prop_oneof![4 => Just(false), 1 => Just(true)], proptest::collection::vec(ev, 1..max), prop_oneof![3 => Just(0u8), 1 => Just(1u8), 2 => Just(2u8), 2 => Just(3u8)], prop_oneof![5 => Just(false), 1 => Just(true)])
+        .prop_map(|(ip_burst, node_burst, total_burst, ban_1h, per_ip_features, events, ip_family, no_node_quota)| FilCase {
             ip_burst,
             node_burst,
             total_burst,
@@ -864,6 +873,7 @@ fn fil_strategy(max: usize) -> BoxedStrategy<FilCase> {
             per_ip_features,
             events,
             ip_family,
+            no_node_quota,
         })
         .boxed()
 }
